@@ -1072,7 +1072,7 @@ class Evaluator:
                     return Closure(mem[1], {'__parent__': None}, mem[0], attr, v, mem[2])
                 if mem and isinstance(mem[1], (ast.Assign, ast.AnnAssign)) and mem[1].value is not None and depth < s.depth_limit:
                     # a class attribute read through the instance; an attribute that is a descriptor object answers through its __get__
-                    cv_ = s.ev(mem[1].value, {'__parent__': None}, mem[0], depth + 1)
+                    cv_ = s.ev(mem[1].value, {'__parent__': None}, mem[0], 1)          # a class-level constant: evaluated on its own, not at the caller's depth
                     if isinstance(cv_, Rec) and cv_.clsref:
                         g_ = s.prog.find_member(cv_.clsref[0], cv_.clsref[1], '__get__')
                         if g_ and isinstance(g_[1], ast.FunctionDef):
@@ -1096,14 +1096,29 @@ class Evaluator:
                 mem_ = s.prog.find_member(s.self_class[0], s.self_class[1], attr)
                 if mem_ and isinstance(mem_[1], ast.FunctionDef) and s.prog.is_property(mem_[1]):
                     return s.call_fn(mem_[1], mem_[0], [v], {}, {'__parent__': None}, depth + 1)
+                if mem_ and isinstance(mem_[1], (ast.Assign, ast.AnnAssign)) and isinstance(mem_[1].value, ast.Call):
+                    # a class attribute that is a descriptor object answers through its __get__(descriptor, instance, owner)
+                    cv_ = s.ev(mem_[1].value, {'__parent__': None}, mem_[0], 1)
+                    if isinstance(cv_, Rec) and cv_.clsref:
+                        g_ = s.prog.find_member(cv_.clsref[0], cv_.clsref[1], '__get__')
+                        if g_ and isinstance(g_[1], ast.FunctionDef):
+                            return s.call_fn(g_[1], g_[0], [cv_, v, Ref('class', s.self_class[0], s.self_class[1], s.self_class[1].name)], {}, {'__parent__': None}, depth + 1)
         return Poly.atom(('.', atomname(v), attr))
 
     def e_Subscript(s, e, env, mod, depth):
         v = s.ev(e.value, env, mod, depth)
+        sl_ = None
         if isinstance(e.slice, ast.Slice):
-            lo = s.ev(e.slice.lower, env, mod, depth) if e.slice.lower else None
-            up = s.ev(e.slice.upper, env, mod, depth) if e.slice.upper else None
-            st = s.ev(e.slice.step, env, mod, depth) if e.slice.step else None
+            sl_ = (s.ev(e.slice.lower, env, mod, depth) if e.slice.lower else None, s.ev(e.slice.upper, env, mod, depth) if e.slice.upper else None,
+                   s.ev(e.slice.step, env, mod, depth) if e.slice.step else None)
+        elif isinstance(e.slice, ast.Call) and isinstance(e.slice.func, ast.Name) and e.slice.func.id == 'slice' and 1 <= len(e.slice.args) <= 3 and not e.slice.keywords \
+                and getattr(s.lookup('slice', env, mod), 'kind', None) == 'builtin':
+            a_ = [s.ev(x, env, mod, depth) for x in e.slice.args]            # x[slice(lo, up, step)] is x[lo:up:step]
+            sl_ = (None, a_[0], None) if len(a_) == 1 else (a_[0], a_[1], a_[2] if len(a_) == 3 else None)
+        if sl_ is not None:
+            lo, up, st = sl_
+            if isinstance(lo, Poly) and lo.is_zero(): lo = None           # x[0:n] is x[:n]
+            if isinstance(st, Poly) and st.real_const() == 1: st = None     # x[a:b:1] is x[a:b]
             if isinstance(v, (list, tuple)) and all(x is None or (isinstance(x, Poly) and x.real_const() is not None) for x in (lo, up, st)):
                 f = lambda x: None if x is None else int(x.real_const())
                 return v[f(lo):f(up):f(st)]
@@ -2078,7 +2093,14 @@ class Evaluator:
         return s.ev(e, env, mod, depth)
 
     def store_attr(s, base, attr, val):
-        if isinstance(base, Rec): base.f[attr] = val
+        if isinstance(base, Rec):
+            # a record is shared by both arms of an undecided test: a store on one arm holds on that arm only
+            pc_ = [(g_, pol_) for g_, pol_ in s._pc if not isinstance(g_, bool)]
+            if pc_ and s._undecided > 0:
+                guard = s.mkbool('and', [g_ if pol_ else s.negate(g_) for g_, pol_ in pc_])
+                old = base.f.get(attr, Opq('?', f'attribute {attr} not set on this path'))
+                val = s.mkcond(guard, val, old)
+            base.f[attr] = val
         elif isinstance(base, Poly) and base.as_atom() is not None:
             s.stores[(base.as_atom(), attr)] = val
 
